@@ -701,6 +701,31 @@ func genSrvState(p *prng, thorough bool, w *bufio.Writer) {
 			g.runSeq([][2]int{{symIdx("HE"), selCur}, {symIdx("done"), selCur}, {symIdx("H"), selNew}, {x, selPrev}, {y, selCur}})
 		}
 	}
+	// a stream refused at the concurrency limit, then every frame (and every pair) a peer that has not seen the
+	// refusal yet may still send on it
+	for x := 0; x < na; x++ {
+		for y := -1; y < na; y++ {
+			if y >= 0 && !thorough && p.intn(4) != 0 {
+				continue
+			}
+			g.newConn(1, 0, 0)
+			g.settings()
+			g.next = 5
+			a := g.sid()
+			g.line("# HE@cur")
+			stateAlphabet[symIdx("HE")].f(g, a) // dispatched: the only slot is taken
+			b := g.sid()
+			g.line("# HE@cur HE@new")
+			stateAlphabet[symIdx("HE")].f(g, b) // refused
+			g.line("# HE@cur HE@new %s@cur", stateAlphabet[x].name)
+			stateAlphabet[x].f(g, b)
+			if y >= 0 {
+				g.line("# HE@cur HE@new %s@cur %s@cur", stateAlphabet[x].name, stateAlphabet[y].name)
+				stateAlphabet[y].f(g, b)
+			}
+			g.gauges()
+		}
+	}
 	// stream-id watermark scenarios (RFC 7540 5.1.1: identifiers only ever increase)
 	// (a) the newest stream, once it has left the closed-stream memory, must not be re-opened
 	g.newConn(300, 0, 0)
@@ -822,6 +847,15 @@ func genSrvErr(p *prng, thorough bool, w *bufio.Writer) {
 				}
 				g.line("#refused %d", sid)
 				g.frame(frameBytes(1, 5, sid, g.enc.block(p, []kv{{k: ":method", v: "GET"}, {k: ":scheme", v: "https"}, {k: ":path", v: "/"}, {k: "x-refused", v: "entry"}})))
+				// what a peer that has not seen the refusal yet may still send on that stream
+				switch p.intn(4) {
+				case 0:
+					g.rst(sid, 8)
+				case 1:
+					g.windowUpdate(sid, 100)
+				case 2:
+					g.priority(sid, 0, 5)
+				}
 			} else {
 				r := g.randRequest(sid)
 				for _, u := range g.requestUnits(r, g.randRender()) {
